@@ -220,6 +220,33 @@ def generate(repo):
     A('def methodOp : String → Option ArithOp\n' + '\n'.join(f'  | "{m_}" => some .{meth_op[m_]}' for m_ in meth_op) + '\n  | _ => none')
     A('/-- reflected operators defined by class-level aliasing (`__rmul__ = __mul__`) -/')
     A('def reflectedAliases : List (String × String) := [' + ', '.join(f'("{a_}", "{b_}")' for a_, b_ in refl) + ']')
+    # ---- Spectrum.wave setter: the three refusals (every grid an operation builds or converts goes through it)
+    ws = [n for n in cls_.body if isinstance(n, ast.FunctionDef) and n.name == 'wave' and any(ast.unparse(d) == 'wave.setter' for d in n.decorator_list)]
+    if len(ws) != 1: raise Refuse('Spectrum.wave setter not found')
+    wb_ = nodoc(ws[0])
+    if [a.arg for a in ws[0].args.args] != ['self', 'value']: raise Refuse('wave setter: parameters')
+    if ast.unparse(wb_[0]) != 'value = np.asarray(value)' or ast.unparse(wb_[-1]) != 'self._wave = value': raise Refuse('wave setter: first/last statement')
+    gs = wb_[1:-1]
+    if len(gs) != 3 or not all(isinstance(g, ast.If) and not g.orelse and len(g.body) == 1 and isinstance(g.body[0], ast.Raise) and 'ValueError' in ast.unparse(g.body[0]) for g in gs):
+        raise Refuse('wave setter: three `if …: raise ValueError` guards expected between asarray and the assignment')
+    def anyarg(t):
+        if not (isinstance(t, ast.Call) and ast.unparse(t.func) == 'np.any' and len(t.args) == 1 and isinstance(t.args[0], ast.Compare) and len(t.args[0].ops) == 1): raise Refuse(f'wave setter: guard {ast.unparse(t)}')
+        return t.args[0]
+    WC = {ast.Gt: '>', ast.Lt: '<', ast.GtE: '≥', ast.LtE: '≤', ast.Eq: '=', ast.NotEq: '≠'}
+    def wex(e, env):
+        k = ast.unparse(e)
+        if k in env: return env[k]
+        if isinstance(e, ast.Constant) and type(e.value) is int: return str(e.value)
+        if isinstance(e, ast.BinOp) and type(e.op) in (ast.Add, ast.Sub): return f"({wex(e.left, env)} {'+' if isinstance(e.op, ast.Add) else '-'} {wex(e.right, env)})"
+        raise Refuse(f'wave setter: term {k}')
+    c0_ = anyarg(gs[0].test)
+    if ast.unparse(gs[1].test) != 'not np.all(np.sort(value) == value)': raise Refuse('wave setter: sortedness guard')
+    c2_ = anyarg(gs[2].test)
+    if type(c0_.ops[0]) not in WC or type(c2_.ops[0]) not in WC: raise Refuse('wave setter: comparison operator')
+    A('\n/-- `Spectrum.wave` setter, in source order: refuse when any `' + ast.unparse(c0_) + '`; when `np.sort(value) != value` somewhere (checked structurally); when any `' + ast.unparse(c2_) + '` (w0, w1 adjacent samples) -/')
+    A(f"def waveRejectsSample (w : Rat) : Bool := decide ({wex(c0_.left, {'value': 'w'})} {WC[type(c0_.ops[0])]} {wex(c0_.comparators[0], {'value': 'w'})})")
+    env_d = {'value[1:]': 'w1', 'value[:-1]': 'w0'}
+    A(f"def waveRejectsStep (w0 w1 : Rat) : Bool := decide ({wex(c2_.left, env_d)} {WC[type(c2_.ops[0])]} {wex(c2_.comparators[0], env_d)})")
     return '\n'.join(L) + '\n', {'assignments': order, 'sampling': sel, 'elementwise': types}
 
 MODULES = [{'name': 'InterpGrid', 'src': SRC, 'generator': generate, 'props': ['C13']}]
